@@ -80,8 +80,24 @@ GW = {"kind": "gridworld", "tiles": ["s..#", "..#.", "...g"], "success_prob": "4
 GWD = {"kind": "gridworld", "tiles": ["s..#", "....", "#..g"]}
 
 
+OG = {"kind": "opengrid", "size": 5}                      # 70 tied shortest paths, actions given as ONE plain list
+PL = dict(actions_as="list", persistent=True)            # problem hands out the same list / distribution objects every call
+
+
 def corpus():
     """fixed representative problems: (problem spec, params) per component"""
+    c = corpus_()
+    det = dict(deterministic=True, n=12)
+    c["astar"] += [(OG, {}), (dict(OG, labels="int"), {"tie_breaking_strategy": "lifo"}), (R(**det, **PL), {})]
+    c["bfs"] += [(OG, {}), (dict(OG, labels="int", actions_as="tuple"), {}), (R(**det, **PL), {})]
+    for comp in ("laostar", "lrtdp", "mdp_rollout", "semimdp"):
+        c[comp] += [(R(**PL), {})]
+    for comp in ("td", "rmax"):
+        c[comp] += [(R(reward="goal", **PL), {})]
+    return c
+
+
+def corpus_():
     det = dict(deterministic=True, n=12)
     return {
         "laostar": [(R(), {}), (R(labels="int"), {}), (R(labels="tuple"), {}), (GW, {}), ({"kind": "gnt"}, {}), ({"kind": "rngrid"}, {})],
@@ -175,7 +191,7 @@ def keyclass(case):
         if case["component"] == "semimdp" and par.get("option_names", "str") == "str":
             return "str"
         return "int"
-    if p["kind"] in ("rngrid", "gnt"):
+    if p["kind"] in ("rngrid", "gnt") or (p["kind"] == "opengrid" and p.get("labels") == "int"):
         return "int"
     if p["kind"] == "none" and all(isinstance(e, int) for e in p.get("events", ["x"])):
         return "int"
@@ -202,7 +218,7 @@ def build_cases(ctx):
         for prob, par in variants()[comp]:
             for seed in (seeds[:1] if tier == "quick" else seeds[:2]):      # quick: seed 0 only (always included)
                 c = {"component": comp, "problem": prob, "params": par, "seed": seed, "origin": "variant",
-                     "x": "second_problem_n_delta" in par, "t": seed == 0}
+                     "x": "second_problem_n_delta" in par, "t": seed == 0, "p": seed == 0}
                 if comp == "pomdp_rollout":
                     c["scrambles"] = 2
                 cases.append(c)
@@ -223,7 +239,7 @@ def run_matrix(ctx, cases, hashseeds):
     sets = list(hashseeds) + [ORDER_SET]
     per = max(1, ctx.jobs // len(sets))
     sub = [i for i, c in enumerate(cases) if c["seed"] == 0 or len(cases) < 10]      # the order set runs the seed-0 cases only
-    rev = [dict(cases[i], x=False, t=False) for i in reversed(sub)]
+    rev = [dict(cases[i], x=False, t=False, p=False) for i in reversed(sub)]
 
     def one(label):
         if label == ORDER_SET:
@@ -283,6 +299,8 @@ def env(hs, run):
              "D": "fresh object, global generators put back in state 1",
              "R": "SECOND CALL of plan_on/train_on/run_on/query on the SAME object that produced run A",
              "T": "fresh object; the problem object had its cached views (state_list, matrices, reachable_states) touched first",
+             "P1": "fresh component on a problem object that is shared with the next run",
+             "P2": "second fresh component on the SAME problem object the previous component already used",
              "XR": "the object of run A called on a SECOND problem (same labels, different numbers)",
              "XF": "a fresh object on that second problem",
              "XA": "the object of run A called on the FIRST problem again after the second one"}
@@ -339,6 +357,18 @@ def analyse(ctx, cases, results, hashseeds):
                     add(comp, "reused-object-on-second-problem-differs", "", i, pair_detail(case, hs, "XF", r["XF"], hs, "XR", r["XR"]))
                 elif dig(r["XA"]) != dig(a):
                     add(comp, "reused-object-on-second-problem-differs", "", i, pair_detail(case, hs, "A", a, hs, "XA", r["XA"]))
+            for name in ("P1", "P2"):
+                if name in r and dig(r[name]) != dig(a):
+                    add(comp, "differs-when-problem-object-is-shared-or-reused", "", i, pair_detail(case, hs, "A", a, hs, name, r[name]))
+                    break
+            fp = r.get("problem_fingerprints")
+            if fp and len(set(fp)) > 1:
+                add(comp, "mutates-the-problem-object", "", i,
+                    {"case": case, "environment": {"PYTHONHASHSEED": hs},
+                     "problem_fingerprints_before_between_after": fp,
+                     "note": "order-sensitive fingerprint of actions(s) / next_state_dist(s,a).items() / initial_state_dist of the "
+                             "problem object changed while two fresh components ran on it"})
+            extra = extra + [(k, r[k]) for k in ("P1", "P2") if k in r]
             runs = runs + extra
             changed = sorted({g for _, x in runs for g in x.get("globals_changed", [])})
             if dig(r["B"]) != dig(a):
@@ -378,7 +408,8 @@ def report_runtime(ctx, cases, fails):
         if axis == HASH_AXIS:
             qual = "str-keys-only" if all(keyclass(c) == "str" for c in fc) else "incl-int-keys"
             exhibited.setdefault((comp, "hash"), items[0][1])
-        elif axis in (CARRY_AXIS, "reused-object-on-second-problem-differs"):
+        elif axis in (CARRY_AXIS, "reused-object-on-second-problem-differs", "mutates-the-problem-object",
+                      "differs-when-problem-object-is-shared-or-reused"):
             qual = "seed0-only" if all(c["seed"] == 0 for c in fc) else "any-seed"
             exhibited.setdefault((comp, "carry"), items[0][1])
         else:
